@@ -113,11 +113,21 @@ func FromStream(
 				if slices.Contains(fourCcList, any(fourCCToString(message.FourCCHEVC))) {
 					outFormat := outDesc.Medias[i].Formats[j].(*format.H265)
 
+					vps, sps, pps := outFormat.VPS, outFormat.SPS, outFormat.PPS
+
+					// parameters come from the publisher and are not validated.
+					// The writer cannot work with a SPS that cannot be parsed,
+					// in this case let it use its default parameters.
+					var psps h265.SPS
+					if sps != nil && psps.Unmarshal(sps) != nil {
+						vps, sps, pps = nil, nil, nil
+					}
+
 					track := &gortmplib.Track{
 						Codec: &codecs.H265{
-							VPS: outFormat.VPS,
-							SPS: outFormat.SPS,
-							PPS: outFormat.PPS,
+							VPS: vps,
+							SPS: sps,
+							PPS: pps,
 						},
 					}
 					tracks = append(tracks, track)
@@ -160,10 +170,20 @@ func FromStream(
 
 					outFormat := outDesc.Medias[i].Formats[j].(*format.H264)
 
+					sps, pps := outFormat.SPS, outFormat.PPS
+
+					// parameters come from the publisher and are not validated.
+					// The writer cannot work with a SPS that cannot be parsed,
+					// in this case let it use its default parameters.
+					var psps h264.SPS
+					if sps != nil && psps.Unmarshal(sps) != nil {
+						sps, pps = nil, nil
+					}
+
 					track := &gortmplib.Track{
 						Codec: &codecs.H264{
-							SPS: outFormat.SPS,
-							PPS: outFormat.PPS,
+							SPS: sps,
+							PPS: pps,
 						},
 					}
 					tracks = append(tracks, track)
